@@ -571,4 +571,13 @@ func ruleBudgetNotEarly(c *Ctx) {
 		}
 	})
 	R.Ob("(*dataReader).Read/over-limit returns found", c.P.Pos(f.Pos()), n >= 1, fmt.Sprintf("%d returns of ErrDataTooLarge", n))
+	// ... and the budget is the configured maximum, nothing smaller (a SIZE the client announced is an estimate, it
+	// does not delimit the message)
+	if g := c.A.Func("newDataReader"); g != nil {
+		_, s := c.Std()
+		for _, st := range s.Find(g, "st:dataReader.n") {
+			_, _, v := storedField(st)
+			R.Ob(c.siteKey(st, "budget is the configured maximum"), c.P.InstrPos(st), describe(v) == "Server.MaxMessageBytes", "the reader's budget is initialised from "+describe(v)+": a message within the configured limit can be cut short")
+		}
+	}
 }
